@@ -18,12 +18,14 @@ type RField struct {
 // ReaderSeq lists the Extract* calls of fn in order, with the destination field of each value.
 func (a *An) ReaderSeq(fn *ssa.Function) []RField {
 	var calls []*ssa.Call
-	for _, b := range fn.Blocks {
-		for _, in := range b.Instrs {
-			if c, ok := in.(*ssa.Call); ok {
-				if sc := c.Call.StaticCallee(); sc != nil && sc.Pkg != nil && sc.Pkg.Pkg.Path() == otrPath {
-					if _, known := extractWidths[sc.Name()]; known {
-						calls = append(calls, c)
+	for _, g := range a.ownedFns(fn) {
+		for _, b := range g.Blocks {
+			for _, in := range b.Instrs {
+				if c, ok := in.(*ssa.Call); ok {
+					if sc := c.Call.StaticCallee(); sc != nil && sc.Pkg != nil && sc.Pkg.Pkg.Path() == otrPath {
+						if _, known := extractWidths[sc.Name()]; known {
+							calls = append(calls, c)
+						}
 					}
 				}
 			}
@@ -34,7 +36,7 @@ func (a *An) ReaderSeq(fn *ssa.Function) []RField {
 	for i, c := range calls {
 		rf := RField{Kind: c.Call.StaticCallee().Name(), At: c}
 		// chained?
-		arg := c.Call.Args[0]
+		arg := a.C.resolveParam(c.Call.Args[0])
 		if i == 0 {
 			rf.Chain = true
 		} else if ex, ok := arg.(*ssa.Extract); ok && ex.Index == 0 && ex.Tuple == ssa.Value(calls[i-1]) {
